@@ -872,6 +872,19 @@ impl<'a> Evaluator<'a> {
                 Ok(Val::Ctor("$return".into(), vec![v], BTreeMap::new()))
             }
             Expr::Macro(m) => self.eval_macro(&m.mac, env),
+            Expr::Call(c) if matches!(&*c.func, Expr::Call(_)) => {
+                // curried application `f(a)(b)` (nom parser constructors): offered to the hook as `f()` with a ++ b
+                let Expr::Call(inner) = &*c.func else { unreachable!() };
+                let name = crate::model::callee_name(inner).unwrap_or_default();
+                let mut args = vec![];
+                for a in inner.args.iter().chain(c.args.iter()) {
+                    args.push(self.eval(a, env)?);
+                }
+                match (self.call_hook)(self, &format!("{}()", name), &args) {
+                    Some(r) => r,
+                    None => Ok(Val::Opaque(format!("call {}", tok(&c.func)))),
+                }
+            }
             Expr::Call(c) => {
                 let name = crate::model::callee_name(c).unwrap_or_default();
                 let mut args = vec![];
@@ -1238,6 +1251,7 @@ impl<'a> Evaluator<'a> {
                         "to_ascii_uppercase" => return Ok(Val::Char(ch.to_ascii_uppercase())),
                         "to_ascii_lowercase" => return Ok(Val::Char(ch.to_ascii_lowercase())),
                         "to_string" => return Ok(Val::Str(ch.to_string())),
+                        "len_utf8" => return Ok(Val::int(ch.len_utf8() as i128)),
                         _ => {}
                     }
                 }
@@ -1261,6 +1275,30 @@ impl<'a> Evaluator<'a> {
                         }
                         "is_empty" => return Ok(Val::Bool(st.is_empty())),
                         "len" => return Ok(Val::int(st.len() as i128)),
+                        "lines" if mc.args.is_empty() => return Ok(Val::List(st.lines().map(|l| Val::Str(l.to_string())).collect())),
+                        "char_indices" if mc.args.is_empty() => return Ok(Val::List(st.char_indices().map(|(i, c)| Val::Tuple(vec![Val::int(i as i128), Val::Char(c)])).collect())),
+                        "trim" if mc.args.is_empty() => return Ok(Val::Str(st.trim().to_string())),
+                        "trim_start" if mc.args.is_empty() => return Ok(Val::Str(st.trim_start().to_string())),
+                        "trim_end" if mc.args.is_empty() => return Ok(Val::Str(st.trim_end().to_string())),
+                        "is_char_boundary" if mc.args.len() == 1 => {
+                            if let Val::Int { v, .. } = self.eval(&mc.args[0], env)? {
+                                return Ok(Val::Bool(v >= 0 && st.is_char_boundary(v as usize)));
+                            }
+                        }
+                        "strip_prefix" | "strip_suffix" | "find" | "rfind" | "split_once" if mc.args.len() == 1 => {
+                            let pat = match self.eval(&mc.args[0], env)? { Val::Char(c) => Some(c.to_string()), Val::Str(p) => Some(p), _ => None };
+                            if let Some(pat) = pat {
+                                let opt_s = |o: Option<&str>| o.map(|x| Val::some(Val::Str(x.to_string()))).unwrap_or(Val::none());
+                                let opt_i = |o: Option<usize>| o.map(|x| Val::some(Val::int(x as i128))).unwrap_or(Val::none());
+                                return Ok(match name.as_str() {
+                                    "strip_prefix" => opt_s(st.strip_prefix(pat.as_str())),
+                                    "strip_suffix" => opt_s(st.strip_suffix(pat.as_str())),
+                                    "find" => opt_i(st.find(pat.as_str())),
+                                    "rfind" => opt_i(st.rfind(pat.as_str())),
+                                    _ => st.split_once(pat.as_str()).map(|(a, b)| Val::some(Val::Tuple(vec![Val::Str(a.to_string()), Val::Str(b.to_string())]))).unwrap_or(Val::none()),
+                                });
+                            }
+                        }
                         "match_indices" | "matches" if mc.args.len() == 1 => {
                             let pv = self.eval(&mc.args[0], env)?;
                             if let Val::List(cs) = &pv {
@@ -1424,6 +1462,22 @@ impl<'a> Evaluator<'a> {
                 }
                 Ok(Val::Unit)
             }
+            Expr::Loop(l) => {
+                for _ in 0..100_000 {
+                    let mut e2 = env.clone();
+                    let r = self.eval_block(&l.body, &mut e2)?;
+                    merge_back(env, &e2);
+                    if let Val::Ctor(n, _, _) = &r {
+                        if n == "$return" {
+                            return Ok(r);
+                        }
+                        if n == "$break" {
+                            return Ok(Val::Unit);
+                        }
+                    }
+                }
+                Err("loop did not terminate within 100000 iterations".into())
+            }
             Expr::While(w) => {
                 // bounded unrolling: a loop that does not finish within the bound is an analysis failure, not a result
                 for _ in 0..10_000 {
@@ -1473,7 +1527,11 @@ impl<'a> Evaluator<'a> {
             },
             Expr::Range(r) => {
                 let lo = match &r.start { Some(e) => self.eval(e, env)?, None => Val::int(0) };
-                let hi = match &r.end { Some(e) => self.eval(e, env)?, None => return Err("open range".into()) };
+                let hi = match &r.end {
+                    Some(e) => self.eval(e, env)?,
+                    // `a..`: a range value (only meaningful as an index / slice argument)
+                    None => return Ok(Val::Ctor("$range".into(), vec![lo, Val::Unit], BTreeMap::new())),
+                };
                 match (lo, hi) {
                     (Val::Int { v: a, .. }, Val::Int { v: b, .. }) => {
                         let b = if matches!(r.limits, syn::RangeLimits::Closed(_)) { b } else { b - 1 };
@@ -1612,6 +1670,28 @@ impl<'a> Evaluator<'a> {
                                 return self.eval_fn_body(body, &mut e2);
                             }
                         }
+                        // `char::method` / `str::method` given by path: the same as calling the method on the argument
+                        if let (Some(Val::Char(ch)), true) = (args.first(), name.starts_with("char::")) {
+                            let r = match &name["char::".len()..] {
+                                "len_utf8" => Some(Val::int(ch.len_utf8() as i128)),
+                                "is_whitespace" => Some(Val::Bool(ch.is_whitespace())),
+                                "is_alphanumeric" => Some(Val::Bool(ch.is_alphanumeric())),
+                                "is_ascii_alphanumeric" => Some(Val::Bool(ch.is_ascii_alphanumeric())),
+                                "is_ascii_digit" => Some(Val::Bool(ch.is_ascii_digit())),
+                                "is_numeric" => Some(Val::Bool(ch.is_numeric())),
+                                "is_uppercase" => Some(Val::Bool(ch.is_uppercase())),
+                                "is_lowercase" => Some(Val::Bool(ch.is_lowercase())),
+                                "to_ascii_uppercase" => Some(Val::Char(ch.to_ascii_uppercase())),
+                                "to_ascii_lowercase" => Some(Val::Char(ch.to_ascii_lowercase())),
+                                _ => None,
+                            };
+                            if let Some(r) = r {
+                                return Ok(r);
+                            }
+                        }
+                        if let (Some(Val::Str(st)), true) = (args.first(), name == "str::len" || name == "String::len") {
+                            return Ok(Val::int(st.len() as i128));
+                        }
                         // conversions that leave the abstract value as it is
                         if ["String::as_str", "String::as_ref", "String::from", "String::clone", "str::to_string", "str::to_owned", "ToString::to_string", "ToOwned::to_owned", "Clone::clone", "AsRef::as_ref", "Into::into", "From::from"].contains(&name.as_str()) && args.len() == 1 {
                             return Ok(args[0].clone());
@@ -1654,7 +1734,11 @@ impl<'a> Evaluator<'a> {
                         o => return Err(format!("closure param: {:?}", o)),
                     }
                 }
-                self.eval(&cl.body, &mut e2)
+                // a `return` inside the closure ends the closure
+                Ok(match self.eval(&cl.body, &mut e2)? {
+                    Val::Ctor(n, mut p, _) if n == "$return" => p.pop().unwrap_or(Val::Unit),
+                    o => o,
+                })
             }
             syn::Expr::Path(_) => {
                 let mut e2 = env.clone();
